@@ -31,7 +31,7 @@ FULL_COMPOUNDS = ["if", "ifelse", "ifelif", "cond2", "while", "for"]
 FULL_CONDS = ["c0", "c1", "cin", "cctr", "ctick"]
 
 LOOP_ATOMS = ["tick", "inc", "break", "cont", "ret"]
-LOOP_COMPOUNDS = ["if", "ifelse", "while", "for"]
+LOOP_COMPOUNDS = ["if", "ifelse", "ifelif", "cond2", "while", "for"]
 LOOP_CONDS = ["cin", "cctr"]
 
 
